@@ -216,7 +216,7 @@ def classify_ir(ir, style, emit_dd, kinds=("rest", "numpydoc", "google")):
                 return "C17-code-default-unquoted"
             if d["t"] == "str" and _dot_outside_brackets(d["v"]):
                 return "C17-D5-dot-in-value"
-            if "efaults" in p.get("doc", ""):
+            if "efaults" in p.get("doc", "") and not G.has_own_default_sentence(p):
                 return "C17-D9-prose-mentions-defaults"
     if style in ("numpydoc", "google"):
         seen_default = False
